@@ -36,6 +36,7 @@ M = [
  ("parse_idl_value accepts a type annotation at the root", "C11", "parse_idl_value rejected the Display text of any annotated single value (`42 : nat8`)"),
  ("surplus wire fields of a record are skipped without the made-up field name", "C15", "a record field named \"_\" was dropped by the untyped decoder; #[serde(rename = \"_\")] structs failed on any surplus wire field (4449444c016c015f7d010001 at record { \"_\" : nat })"),
  ("byte-string targets check the wire type", "C08", "&[u8] / serde_bytes::Bytes accepted text, vec nat, nat8 ... as bytes; ByteBuf rejected empty vectors of other element types"),
+ ("method names of function references are checked to be UTF-8 when the value is skipped", "C02", "DIDL 01 6a 02 71 71 00 00 01 00 01 01 03 ca ff ee 01 80 at (opt principal): a func reference whose method name is not UTF-8 was accepted when skipped (surplus / mismatched opt / reserved)"),
 ]
 log = subprocess.run(['git','-C','/repo','log','--format=%h\t%s','616d33a..HEAD','--reverse'],capture_output=True,text=True).stdout.strip().split('\n')
 lines=[]
